@@ -197,7 +197,8 @@ def run_case(ci, case, progress):
                 progress.flush()
             env.calls = 0
             kind, n = op[0], "t%d" % op[1]
-            v = val(op[2]) if kind == "set" else None
+            v = val(op[2]) if kind in ("set", "val") else None
+            ct = o.trait(n) if kind in ("val", "def") else None
             gc.collect(1)      # young generations only: the garbage of the previous step is young
             before = [getrc(x) for x in measured]
             res = "Ok"
@@ -206,6 +207,10 @@ def run_case(ci, case, progress):
                     setattr(o, n, v)
                 elif kind == "get":
                     getattr(o, n)
+                elif kind == "val":
+                    ct.validate(o, n, v)
+                elif kind == "def":
+                    ct.default_value_for(o, n)
                 else:
                     delattr(o, n)
             except BaseException as e:
